@@ -716,7 +716,7 @@ func Run(c *core.Ctx) {
 	}
 	ts = append(ts, pts...)
 	c.Note("functions", fmt.Sprintf("%d bridged functions (generated stdlib + synthetic + %d functions of a real Go plugin loaded by stdlib.AddStdlibPluginFunc / LoadStdlibPlugins)", len(ts), len(pts)))
-	c.Note("histories", "every result list that equalled the reference is kept and compared again after each of the next 8 bridge calls (a delivered result must not change); stream plugin-seq: random call sequences over the plugin functions incl. panicking ones, every call watched (a call parked on a bridge lock nobody holds is a violation); stream conc: 2..4 goroutines call multi-result functions at the same time and re-read their result lists after yielding")
+	c.Note("histories", "every result list that equalled the reference is kept and compared again after each of the next 8 bridge calls (a delivered result must not change); stream plugin-seq: random call sequences over the plugin functions incl. panicking ones, every call watched (a call parked on a bridge lock nobody holds is a violation); stream computed: one parsed call site pkg[fn](a0) evaluated 3..7 times with another function name each time, compared with the direct call of the function named; stream conc: 2..4 goroutines call multi-result functions at the same time and re-read their result lists after yielding")
 	U := len(universe)
 	n3 := vecCount(U, 3)
 	n4 := c.Pick(1500, 100000)
@@ -791,6 +791,7 @@ func Run(c *core.Ctx) {
 	}
 	h.streamPluginSeq(pts)
 	h.streamConc(ts)
+	h.streamComputed(ts)
 	h.throughECAL(ts)
 }
 
